@@ -19,6 +19,16 @@ pub use pam::{module::PamHooks, PamSparkle};
 
 pub(crate) mod core;
 
+/// Verification harness access to the decision core: the functions the PAM entry points call,
+/// with the daemon connection and the local account files supplied by the caller.
+#[cfg(all(feature = "verif-hooks", target_family = "unix"))]
+pub mod verif_hooks {
+    pub use crate::core::{
+        acct_mgmt, sm_authenticate, sm_authenticate_connected, sm_authenticate_fallback,
+        PamHandler, RequestOptions,
+    };
+}
+
 // pub use needs to be here so it'll compile and export all the things
 #[cfg(target_family = "unix")]
 pub use crate::pam::*;
